@@ -4,6 +4,7 @@ import (
 	"fmt"
 	"go/token"
 	"go/types"
+	"os"
 	"strings"
 
 	"golang.org/x/tools/go/ssa"
@@ -212,6 +213,18 @@ func c12(r *core.Run) {
 	c17ExactTokens(r, "T4", []string{rel}, "badgerstore")
 	r.Rule("T5", "what the rebuilt index returns is the stored id (shared with C13.K1): the reader of index entries splits at the last separator byte, so an index key that itself contains the separator (binary keys) cannot shift the boundary between key and id", 1)
 	c13ReaderSplitsLast(r, "T5", rel)
+	r.Rule("T7", "after RebuildIndexes a paged, filtered query agrees with the stored values (shared with C13.W2): in the index scan the offset and the limit are counted down, and an id is appended, only for an entry the key filter accepted - an offset consumed by entries the filter rejects starts the page too early", 3)
+	if fc := methodNamed(p, "store/badgerstore", "IndexQuery", "FetchCollection"); fc != nil {
+		c13WindowAfterFilter(r, "T7", fc)
+	} else {
+		r.Unres("T7", "IndexQuery.FetchCollection", "missing")
+	}
+	r.Rule("T8", "after RebuildIndexes an unlimited query returns every matching value (shared with C13.W1): a negative limit is mapped to max-int in the index scan, not to a buffer size", 1)
+	if fc := methodNamed(p, "store/badgerstore", "IndexQuery", "FetchCollection"); fc != nil {
+		r.Check(c13NegativeLimitIsUnlimited(fc), "T8", core.FuncName(fc), "negative-limit->max-int", p.Pos(fc.Pos()), "negative limit means unlimited", "a negative limit is not mapped to max-int: an unlimited query is cut off at some fixed number of ids although every value and every index entry is present")
+	} else {
+		r.Unres("T8", "IndexQuery.FetchCollection", "missing")
+	}
 	r.Rule("T6", "an acknowledged write went to the key of its own id (shared with C11.K3 / C16.O4): no database key is built by appending to a slice kept in the store - with spare capacity every open transaction's key is the same memory, and a second transaction redirects the first one's write to another id", 1)
 	c16NoForeignAppend(r, "T6", []string{rel}, "badgerstore")
 	c12InitAnnounce(r, "I2", rel)
@@ -402,6 +415,16 @@ func c12(r *core.Run) {
 							if strings.Contains(d, "extract:call:(*"+badgerPath+".Txn).Get") && strings.HasSuffix(d, "!=nil") {
 								skipOK = true
 							}
+							// the existence test may be a helper's bool result (found, err := hasKey(txn, key)):
+							// what taking this edge implies inside the helper
+							for _, d2 := range impliedConds(ed, 0) {
+								if os.Getenv("RV_DEBUG_I1") != "" {
+									fmt.Fprintln(os.Stderr, "I1 direct skip implied:", d2)
+								}
+								if strings.Contains(d2, "Txn).Get") && (strings.HasSuffix(d2, "!=nil") || (strings.Contains(d2, "==global:ErrKeyNotFound") && !strings.HasPrefix(d2, "!"))) {
+									skipOK = true
+								}
+							}
 						}
 					}
 					if !skipOK {
@@ -472,7 +495,7 @@ func c12(r *core.Run) {
 			for _, c := range helperCalls(p, cl) {
 				if isBadgerCall(c, "Txn", "Set") {
 					nn := false
-					for _, ed := range dominatingEdges(c) {
+					for _, ed := range ctxEdges(p, c, cl, 0) { // the Set may sit in a helper called behind the test
 						if strings.HasSuffix(describeCond(ed), "!=nil") && strings.Contains(describeCond(ed), "Key") || strings.HasSuffix(describeCond(ed), "!=nil") && !strings.Contains(describeCond(ed), "extract") {
 							nn = true
 						}
@@ -530,6 +553,8 @@ func c13(r *core.Run) {
 	r.Rule("K1", "key layout: getKey = name ':' key SEP id and getQuery = name ':' prefix fill their buffers exactly for every input length and use the same constants; the reader splits at the last SEP (the same constant) and strips len(name)+1", 5)
 	r.Rule("K2", "nil keys are never indexed: every index Set in the maintenance path is dominated by the key != nil edge", 2)
 	r.Rule("K3", "nil vs empty key: index maintenance skips an index only when the key is truly unchanged (both nil, or both non-nil and equal): bytes.Equal is evaluated only under both-non-nil", 1)
+	r.Rule("K10", "the before-value of a mutation is what is stored: wherever the store decodes stored bytes through reflection, the reflect.Value whose Interface() is handed to json.Unmarshal comes from reflect.New in this very call on every path - a pooled or cached target keeps the members the text does not mention (omitempty, null) from the value decoded before, the index update computes the old key from that, and entries are left behind or never written", 1)
+	c13DecodeTargetFresh(r, "K10", "store/badgerstore")
 	r.Rule("K9", "the prefix is matched against the key, not the id: the scan accepts an entry only behind a comparison of the id separator's position with the length of the query prefix (badger's prefix match runs over the whole entry, separator and id included)", 1)
 	c13PrefixInsideKey(r, "K9", rel)
 	r.Rule("K8", "an empty key is a key (shared with C14.N5): nothing in the query store decides from the length of an index key - 'not indexed' is the nil key; a length test makes the empty key of a value with an empty indexed member count as no key", 1)
@@ -664,19 +689,7 @@ func c13(r *core.Run) {
 				if ok && kc.Common().StaticCallee() == gk {
 					keyVal = kc.Common().Args[2]
 				}
-				one := false
-				for _, ed := range dominatingEdges(st.at) {
-					ci := core.Cond(ed.If.Cond)
-					if ci.Kind == "nilcmp" && keyVal != nil && ci.X == keyVal {
-						truth := ed.Succ == 0
-						if ci.Negate {
-							truth = !truth
-						}
-						if (ci.Op == token.NEQ) == truth {
-							one = true
-						}
-					}
-				}
+				one := c13KeyNonNilAt(p, keyVal, st.at, 0)
 				if !one {
 					nn = false
 				}
@@ -713,7 +726,29 @@ func c13(r *core.Run) {
 			for _, c := range core.Calls(f2) {
 				if isBadgerCall(c, "Txn", "Set") {
 					nn := false
-					for _, ed := range dominatingEdges(c) {
+					edges := dominatingEdges(c)
+					if p.IsPrivateHelper(f2) { // a per-entry helper: the test sits at its call sites
+						cs := p.CallersOf(f2)
+						all := len(cs) > 0
+						var more []edgeCond
+						for _, site := range cs {
+							ok := false
+							for _, ed := range dominatingEdges(site) {
+								d := describeCond(ed)
+								if strings.HasSuffix(d, "!=nil") && !strings.Contains(d, "extract") {
+									ok = true
+									more = append(more, ed)
+								}
+							}
+							if !ok {
+								all = false
+							}
+						}
+						if all {
+							edges = append(edges, more...)
+						}
+					}
+					for _, ed := range edges {
 						d := describeCond(ed)
 						if strings.HasSuffix(d, "!=nil") && !strings.Contains(d, "extract") {
 							nn = true
@@ -868,32 +903,7 @@ func c13(r *core.Run) {
 		}
 		r.Check(g0, "W1", core.FuncName(fc), "limit==0-returns-before-View", p.InstrPos(view), "a zero limit never touches the database", "limit 0 is not short-circuited")
 	}
-	negOK := false
-	for _, b := range fc.Blocks {
-		for _, in := range b.Instrs {
-			if phi, ok := in.(*ssa.Phi); ok {
-				for _, e := range phi.Edges {
-					if c, ok := core.ConstInt(e); ok && c == int64(^uint(0)>>1) {
-						negOK = true
-					}
-				}
-			}
-		}
-	}
-	// the limit variable may live in a cell (captured by the closure)
-	for _, b := range fc.Blocks {
-		for _, in := range b.Instrs {
-			if st, ok := in.(*ssa.Store); ok {
-				if c, ok := core.ConstInt(st.Val); ok && c == int64(^uint(0)>>1) {
-					for _, ed := range dominatingEdges(st) {
-						if strings.HasSuffix(describeCond(ed), "<0") {
-							negOK = true
-						}
-					}
-				}
-			}
-		}
-	}
+	negOK := c13NegativeLimitIsUnlimited(fc)
 	// the "unlimited" sentinel is max-int: the limit may be counted down and compared, never added to
 	{
 		bad := ""
@@ -916,6 +926,24 @@ func c13(r *core.Run) {
 	}
 	r.Check(negOK, "W1", core.FuncName(fc), "negative-limit->max-int", p.Pos(fc.Pos()), "negative limit means unlimited", "a negative limit is not mapped to max-int")
 	c13WindowAfterFilter(r, "W2", fc)
+	// the query object is the caller's: the scan counts its window down in locals, it never writes
+	// a member of the IndexQuery (a query value that is cached, kept in a package variable or used
+	// to page would come back with its offset already consumed)
+	{
+		bad := ""
+		for _, h := range p.Helpers(fc) {
+			for _, f2 := range withAnon(h) {
+				for _, in := range instrsOf(f2) {
+					if st, ok := in.(*ssa.Store); ok {
+						if f, ok := core.FieldOf(st.Addr); ok && strings.HasSuffix(f.Struct, "IndexQuery") {
+							bad = f.String() + " at " + p.InstrPos(st)
+						}
+					}
+				}
+			}
+		}
+		r.Check(bad == "", "W1", core.FuncName(fc), "query-object-not-written", p.Pos(fc.Pos()), "the scan stores into no member of the IndexQuery", "the scan writes the caller's IndexQuery ("+bad+"): the first fetch is right, every later fetch with the same query value returns a window cut with what the earlier one left of offset / limit")
+	}
 }
 
 // c13WindowAfterFilter (typestate per iteration of the index scan): the offset
@@ -1151,6 +1179,10 @@ func c14(r *core.Run) {
 	r.Rule("V1", "every query request gets its own answer (shared with C15.C1 / C16.V1): no closure created in a loop and handed to the per-group queue captures a variable the loop re-assigns (the module's go directive gives loop variables one instance per loop); the listener of a query event would otherwise hand every pending request's closure the latest message", 1)
 	r.Rule("N6", "the change is asked about the query the result is fetched with: in the query handler, wherever a request-handler callback translates the request into the store's query, QueryChange.Events receives that translated query (through phis), not the raw request query", 1)
 	c14EventsGetTheStoreQuery(r, "N6")
+	r.Rule("N9", "what a query returns is what the change test assumes (shared with C13.K9): an index entry is returned only when the query prefix ends before the id separator - exactly, not \"up to one byte past it\" - because queryChange.affectsQuery tests the prefix against the bare key", 1)
+	c13PrefixInsideKey(r, "N9", "store/badgerstore")
+	r.Rule("N8", "the index entries written are the ones computed: BadgerDB keeps the key slices handed to Txn.Set / Txn.Delete until the commit, so every key a transaction of the query store writes is memory of its own - a key builder of the package returns a slice it made itself on every path, never (a re-slice of) a buffer it was handed: with a scratch buffer the key of the pending delete is overwritten by the key of the following set and the old entry is never removed", 1)
+	c14KeysAreFreshSlices(r, "N8", "store/badgerstore")
 	r.Rule("N7", "no mutation without its before-value (shared with C11.E3): in the transaction bodies of badgerstore's Update and Delete no database write is reachable on the edge where the read of the stored value reported an error - a delete that carries on with before == nil leaves the index entry of the old value in place and announces nothing", 2)
 	c11ReadErrorAborts(r, "N7")
 	r.Rule("N5", "an empty key is a key: a query is affected by a value whose index key is empty but not nil exactly like by any other value - 'the value does not exist / is not indexed' is decided by nil tests, never by the length of a key", 1)
@@ -2517,19 +2549,28 @@ func c12InitUnit(r *core.Run, cl *ssa.Function, rel string) bool {
 	}
 	// marker: the key of a direct Set in the body that is also handed, with the transaction, to a
 	// reading call (Txn.Get itself or a private helper that reaches it)
+	// (the Set may itself sit in a private helper that only writes: writeMarker(txn, key))
 	var get, set ssa.CallInstruction
 	for _, c := range core.Calls(cl) {
-		if !isBadgerCall(c, "Txn", "Set") {
-			continue
-		}
-		key := c.Common().Args[1]
-		for _, g := range core.Calls(cl) {
-			cal := g.Common().StaticCallee()
-			if g == c || cal == nil {
-				continue
+		var keys []ssa.Value
+		if isBadgerCall(c, "Txn", "Set") {
+			keys = []ssa.Value{c.Common().Args[1]}
+		} else if cal := c.Common().StaticCallee(); cal != nil && p.IsPrivateHelper(cal) && mayWrite[cal] && !mayGet[cal] && !mayDyn[cal] {
+			for _, a := range c.Common().Args {
+				if a != txnPrm && isByteSlice(a.Type()) {
+					keys = append(keys, a)
+				}
 			}
-			if (isBadgerCall(g, "Txn", "Get") || (mayGet[cal] && !mayWrite[cal] && p.IsPrivateHelper(cal))) && hasArg(g, key) {
-				get, set = g, c
+		}
+		for _, key := range keys {
+			for _, g := range core.Calls(cl) {
+				cal := g.Common().StaticCallee()
+				if g == c || cal == nil {
+					continue
+				}
+				if (isBadgerCall(g, "Txn", "Get") || (mayGet[cal] && !mayWrite[cal] && p.IsPrivateHelper(cal))) && hasArg(g, key) {
+					get, set = g, c
+				}
 			}
 		}
 	}
@@ -2538,7 +2579,7 @@ func c12InitUnit(r *core.Run, cl *ssa.Function, rel string) bool {
 	}
 	fname := core.FuncName(cl)
 	r.OK("I1", fname, "marker-read-and-written-in-closure", p.InstrPos(set), "the same key value is read (through "+core.CalleeName(get)+") and set on the closure's transaction")
-	r.Check(hasArg(get, txnPrm) && set.Common().Args[0] == txnPrm, "I1", fname, "marker-on-same-txn", p.InstrPos(set), "marker read and write use the closure's own transaction", "marker write is on a different transaction than the read")
+	r.Check(hasArg(get, txnPrm) && hasArg(set, txnPrm), "I1", fname, "marker-on-same-txn", p.InstrPos(set), "marker read and write use the closure's own transaction", "marker write is on a different transaction than the read")
 	isSeeding := func(in ssa.Instruction) bool {
 		c, ok := in.(ssa.CallInstruction)
 		if !ok || c == get {
@@ -2566,6 +2607,15 @@ func c12InitUnit(r *core.Run, cl *ssa.Function, rel string) bool {
 			return false
 		}
 		if bt, ok := ex.Type().Underlying().(*types.Basic); ok && bt.Kind() == types.Bool {
+			// the helper says "missing" exactly where Txn.Get reported the key as not found
+			for _, d := range impliedConds(e, 0) {
+				if os.Getenv("RV_DEBUG_I1") != "" {
+					fmt.Fprintln(os.Stderr, "I1 implied:", d)
+				}
+				if strings.Contains(d, "Txn).Get==global:ErrKeyNotFound") && !strings.HasPrefix(d, "!") {
+					return true
+				}
+			}
 			if succ != 1 {
 				return false
 			}
@@ -2603,6 +2653,9 @@ func c12InitUnit(r *core.Run, cl *ssa.Function, rel string) bool {
 		if isStoreSetValue(h) {
 			continue // the encode-and-set helper itself: its call sites are what is guarded
 		}
+		if h == set.Common().StaticCallee() {
+			continue // the helper that writes the marker
+		}
 		for _, c := range core.Calls(h) {
 			cal := c.Common().StaticCallee()
 			if c == set || cal == nil || !(isTxnWrite(c) && h != cl || isStoreSetValue(cal)) {
@@ -2612,7 +2665,10 @@ func c12InitUnit(r *core.Run, cl *ssa.Function, rel string) bool {
 			ok := false
 			for _, ed := range dominatingEdges(c) {
 				for _, d := range impliedConds(ed, 0) {
-					if strings.Contains(d, "Txn).Get") && strings.HasSuffix(d, "!=nil") {
+					if os.Getenv("RV_DEBUG_I1") != "" {
+						fmt.Fprintln(os.Stderr, "I1 skip implied:", d)
+					}
+					if strings.Contains(d, "Txn).Get") && (strings.HasSuffix(d, "!=nil") || (strings.Contains(d, "==global:ErrKeyNotFound") && !strings.HasPrefix(d, "!"))) {
 						ok = true
 					}
 				}
@@ -3506,4 +3562,276 @@ func c12MarkerOnEverySuccess(r *core.Run, cl *ssa.Function, set ssa.Instruction,
 		return
 	}
 	r.Check(bad == "", "I1", core.FuncName(cl), "success-after-seeding-only-through-the-marker-write", p.InstrPos(set), "every return behind the seeding yields the marker write's result or a tested error", "the transaction body can succeed (return at "+bad+") after the seeding part was entered without writing the marker: the store stays unmarked, the next Init takes the first-run path again and re-creates seeds that were deleted in the meantime")
+}
+
+// c13DecodeTargetFresh is C13.K10 (shared as C11.K5).
+func c13DecodeTargetFresh(r *core.Run, rule, rel string) {
+	p := r.P
+	n := 0
+	for _, fn := range p.FuncsOfPkg(rel) {
+		for _, c := range core.Calls(fn) {
+			if core.CalleeName(c) != "encoding/json.Unmarshal" || len(c.Common().Args) != 2 {
+				continue
+			}
+			dst := c.Common().Args[1]
+			if mi, ok := dst.(*ssa.MakeInterface); ok {
+				dst = mi.X
+			}
+			ic, ok := core.Strip(dst).(*ssa.Call)
+			if !ok || ic.Common().StaticCallee() == nil || ic.Common().StaticCallee().String() != "(reflect.Value).Interface" || len(ic.Call.Args) == 0 {
+				continue
+			}
+			n++
+			why := ""
+			var srcs []ssa.Value
+			for _, src := range phiSources(ic.Call.Args[0]) {
+				v := core.Strip(src.V)
+				// a variable captured by the decoding closure: what the enclosing function binds
+				if ld, isLd := v.(*ssa.UnOp); isLd && ld.Op == token.MUL {
+					if fv2, isFV2 := ld.X.(*ssa.FreeVar); isFV2 {
+						v = fv2 // captured by reference: the binding is the variable's cell
+					}
+				}
+				if fv, isFV := v.(*ssa.FreeVar); isFV && fn.Parent() != nil {
+					bound := false
+					for _, mc := range instrsOf(fn.Parent()) {
+						if mk, isMk := mc.(*ssa.MakeClosure); isMk && mk.Fn == ssa.Value(fn) {
+							for i, q := range fn.FreeVars {
+								if q == fv && i < len(mk.Bindings) {
+									for _, s2 := range phiSources(mk.Bindings[i]) {
+										srcs = append(srcs, core.Strip(s2.V))
+									}
+									bound = true
+								}
+							}
+						}
+					}
+					if bound {
+						continue
+					}
+				}
+				srcs = append(srcs, v)
+			}
+			for _, v := range srcs {
+				if nc, isC := v.(*ssa.Call); isC && nc.Common().StaticCallee() != nil && nc.Common().StaticCallee().String() == "reflect.New" {
+					continue
+				}
+				if al, isAl := v.(*ssa.Alloc); isAl {
+					v = &ssa.UnOp{Op: token.MUL, X: al} // a captured cell: judged like a load of it
+				}
+				// a spilled local: every store into the cell is a reflect.New result
+				if ld, isLd := v.(*ssa.UnOp); isLd && ld.Op == token.MUL {
+					if al, isAl := ld.X.(*ssa.Alloc); isAl && al.Referrers() != nil {
+						all, cnt := true, 0
+						for _, rf := range *al.Referrers() {
+							if st, isSt := rf.(*ssa.Store); isSt && st.Addr == ssa.Value(al) {
+								cnt++
+								sv, isC := core.Strip(st.Val).(*ssa.Call)
+								if !isC || sv.Common().StaticCallee() == nil || sv.Common().StaticCallee().String() != "reflect.New" {
+									all = false
+								}
+							}
+						}
+						if all && cnt > 0 {
+							continue
+						}
+					}
+				}
+				why = valDesc(v)
+			}
+			r.Check(why == "", rule, core.FuncName(fn), "reflected-decode-target<-reflect.New", p.InstrPos(c), "the decode target is a zero value made by reflect.New in this call", "stored bytes are decoded into "+why+", not a value made by reflect.New for this call: encoding/json leaves members the text does not mention as they are, so the decoded value inherits them from the previous use of the target - a mutation's before-value (and with it the index entries removed) is then wrong")
+		}
+	}
+	if n == 0 {
+		r.Unres(rule, rel+".<reflected-decode>", "no json.Unmarshal into a reflect.Value's Interface() found")
+	}
+}
+
+// c14KeysAreFreshSlices is C14.N8 (shared as C13.K11): the key argument of
+// every Txn.Set / Txn.Delete in the query store and index code, followed into
+// the key builders of the package, is rooted in make / a conversion / nil in
+// the function that builds it - not in a slice parameter.
+func c14KeysAreFreshSlices(r *core.Run, rule, rel string) {
+	p := r.P
+	busyPrm := map[*ssa.Parameter]bool{}
+	var root func(v ssa.Value, d int) string // "" = fresh
+	root = func(v ssa.Value, d int) string {
+		if d > 8 {
+			return "?"
+		}
+		switch x := core.Strip(v).(type) {
+		case *ssa.MakeSlice, *ssa.Alloc, *ssa.Convert:
+			return ""
+		case *ssa.Const:
+			return ""
+		case *ssa.Slice:
+			return root(x.X, d+1)
+		case *ssa.Phi:
+			for _, e := range x.Edges {
+				if e == ssa.Value(x) {
+					continue
+				}
+				if w := root(e, d+1); w != "" {
+					return w
+				}
+			}
+			return ""
+		case *ssa.Call:
+			if core.CalleeName(x) == "builtin:append" {
+				return root(x.Call.Args[0], d+1)
+			}
+			if cal := x.Common().StaticCallee(); cal != nil && cal.Pkg != nil && cal.Pkg.Pkg.Path() != "" && len(cal.Blocks) > 0 && strings.HasSuffix(cal.Pkg.Pkg.Path(), rel) {
+				for _, ret := range core.Returns(cal) {
+					for _, rv := range ret.Results {
+						if !isByteSlice(rv.Type()) {
+							continue
+						}
+						if w := root(rv, d+1); w != "" {
+							return w
+						}
+					}
+				}
+				return ""
+			}
+			return ""
+		case *ssa.Parameter:
+			if !isByteSlice(x.Type()) {
+				return ""
+			}
+			// a helper handed the key: what its call sites pass; a parameter met again on the way is
+			// a buffer carried from one key to the next
+			if busyPrm[x] {
+				return "the buffer parameter " + x.Name() + " of " + core.FuncName(x.Parent()) + ", reused from one key to the next"
+			}
+			as := paramArgs(p, x, 0)
+			if len(as) == 0 || (len(as) == 1 && as[0] == ssa.Value(x)) {
+				return "the slice parameter " + x.Name() + " of " + core.FuncName(x.Parent())
+			}
+			busyPrm[x] = true
+			defer delete(busyPrm, x)
+			for _, a := range as {
+				if w := root(a, d+1); w != "" {
+					return w
+				}
+			}
+			return ""
+		case *ssa.UnOp:
+			if x.Op == token.MUL {
+				// a local variable cell: every value stored into it
+				if al, ok := x.X.(*ssa.Alloc); ok && al.Referrers() != nil {
+					for _, rf := range *al.Referrers() {
+						if st, ok := rf.(*ssa.Store); ok && st.Addr == ssa.Value(al) {
+							if w := root(st.Val, d+1); w != "" {
+								return w
+							}
+						}
+					}
+					return ""
+				}
+				if f, ok := core.LoadedField(x); ok {
+					return "the member " + f.String()
+				}
+			}
+			return ""
+		}
+		return ""
+	}
+	n := 0
+	for _, fn := range p.FuncsOfPkg(rel) {
+		// the index code: everything in the package but the value store's own methods
+		inQS := true
+		if o := core.Outermost(fn); o.Signature.Recv() != nil {
+			tn := core.TypeName(o.Signature.Recv().Type())
+			if strings.HasSuffix(tn, ".Store") || strings.HasSuffix(tn, "writeTxn") || strings.HasSuffix(tn, "readTxn") {
+				inQS = false
+			}
+		}
+		if !inQS {
+			continue
+		}
+		for _, c := range core.Calls(fn) {
+			if !(isBadgerCall(c, "Txn", "Set") || isBadgerCall(c, "Txn", "Delete")) || len(c.Common().Args) < 2 {
+				continue
+			}
+			n++
+			w := root(c.Common().Args[1], 0)
+			r.Check(w == "", rule, core.FuncName(fn), "written-key-is-a-fresh-slice:"+c.Common().StaticCallee().Name(), p.InstrPos(c), "the key is built in memory of its own", "the key handed to the transaction is backed by "+w+": the transaction keeps the slice until it commits, and the next key built in the same buffer overwrites it - the pending delete (or set) then applies to the wrong index entry")
+		}
+	}
+	if n == 0 {
+		r.Unres(rule, rel+".<index-writes>", "no Txn.Set / Txn.Delete in the query store and index code")
+	}
+}
+
+// c13NegativeLimitIsUnlimited: in the index scan a negative limit becomes
+// max-int (C13.W1; shared as C12.T8).
+func c13NegativeLimitIsUnlimited(fc *ssa.Function) bool {
+	negOK := false
+	for _, b := range fc.Blocks {
+		for _, in := range b.Instrs {
+			if phi, ok := in.(*ssa.Phi); ok {
+				for _, e := range phi.Edges {
+					if c, ok := core.ConstInt(e); ok && c == int64(^uint(0)>>1) {
+						negOK = true
+					}
+				}
+			}
+		}
+	}
+	// the limit variable may live in a cell (captured by the closure)
+	for _, b := range fc.Blocks {
+		for _, in := range b.Instrs {
+			if st, ok := in.(*ssa.Store); ok {
+				if c, ok := core.ConstInt(st.Val); ok && c == int64(^uint(0)>>1) {
+					for _, ed := range dominatingEdges(st) {
+						if strings.HasSuffix(describeCond(ed), "<0") {
+							negOK = true
+						}
+					}
+				}
+			}
+		}
+	}
+	return negOK
+}
+
+// c13KeyNonNilAt: the index key value is known non-nil where `at` executes -
+// by a dominating edge there, or, when the value is a parameter of a private
+// helper (setEntry(txn, idx, rname, key)), at every call site of the helper.
+func c13KeyNonNilAt(p *core.Prog, keyVal ssa.Value, at ssa.Instruction, d int) bool {
+	if keyVal == nil || d > 3 {
+		return false
+	}
+	for _, ed := range dominatingEdges(at) {
+		ci := core.Cond(ed.If.Cond)
+		if ci.Kind == "nilcmp" && ci.X == keyVal {
+			truth := ed.Succ == 0
+			if ci.Negate {
+				truth = !truth
+			}
+			if (ci.Op == token.NEQ) == truth {
+				return true
+			}
+		}
+	}
+	prm, ok := keyVal.(*ssa.Parameter)
+	if !ok || !p.IsPrivateHelper(prm.Parent()) {
+		return false
+	}
+	pi := -1
+	for i, q := range prm.Parent().Params {
+		if q == prm {
+			pi = i
+		}
+	}
+	cs := p.CallersOf(prm.Parent())
+	if len(cs) == 0 || pi < 0 {
+		return false
+	}
+	for _, c := range cs {
+		if pi >= len(c.Common().Args) || !c13KeyNonNilAt(p, c.Common().Args[pi], c, d+1) {
+			return false
+		}
+	}
+	return true
 }
